@@ -65,6 +65,8 @@ def decorate(shapes, seed=0, feat=frozenset()):
     langs = LANGS if "lang" in feat and rnd.random() < 0.7 else []
     # names may contain dots and hyphens (legal XML names; `${n3.a-b}` must still be found as a reference)
     dotted = "dotted_names" in feat and rnd.random() < 0.3
+    # names that are string prefixes of one another (nxx, nxxx, ...): the path of one element then begins with the path of another
+    prefixy = not dotted and random.Random(f"prefixy:{seed}:{shapes}").random() < 0.2
     # the deprecated 'disabled' column: a yes cell removes the row, a no cell changes nothing (several such cells per form)
     use_disabled = "disabled" in feat and rnd.random() < 0.3
     n = 1
@@ -72,6 +74,8 @@ def decorate(shapes, seed=0, feat=frozenset()):
     for shape, given in shapes:
         n += 1
         name = given or f"n{n}"
+        if prefixy and re.fullmatch(r"n\d+", name):
+            name = "n" + "x" * int(name[1:])
         if dotted and re.fullmatch(r"n\d+", name) and rnd.random() < 0.6:
             name = f"{name}.a-b"
         row = {}
@@ -252,6 +256,12 @@ def decorate(shapes, seed=0, feat=frozenset()):
                 else:
                     f.col("hint")
                     row["hint"] = f"Hint {name}"
+            if ("hints" in feat and is_q and shape in ("text", "typed") and not langs and "label" in row and "hint" not in row
+                    and random.Random(f"hintonly:{seed}:{n}:{shapes}").random() < 0.15):
+                # a question that shows only a hint (no label): still a user-visible row, whatever else its cells say (trigger, default)
+                del row["label"]
+                f.col("hint")
+                row["hint"] = f"Hint only {name}"
             if "hints" in feat and is_q and rnd.random() < 0.15:
                 f.col("guidance_hint")
                 row["guidance_hint"] = f"Guide {name}"
@@ -289,14 +299,16 @@ def decorate(shapes, seed=0, feat=frozenset()):
                 row["default"] = rnd.choice(["hello world", "abc", "concat('a', 'b')", "now()"] + ([r0] if r0 else []))
             else:
                 row.pop("default", None)
-        if "trigger" in feat and shape in ("text", "typed", "calc") and f.qnames and rnd.random() < 0.15:
+        hintonly = is_q and str(row.get("hint") or "").startswith("Hint only")
+        if "trigger" in feat and shape in ("text", "typed", "calc") and f.qnames and (
+                rnd.random() < 0.15 or (hintonly and random.Random(f"hotrig:{seed}:{n}:{shapes}").random() < 0.6)):
             # trigger must be a visible question: pick a labelled text question
             vis = [i["name"] for i in f.info if i["shape"] in ("text", "typed", "sel1", "selm") and i["name"]]
             if vis:
                 f.col("trigger")
                 f.col("calculation")
                 row["trigger"] = "${" + rnd.choice(vis) + "}"
-                if "calculation" not in row and rnd.random() < 0.7:
+                if "calculation" not in row and rnd.random() < 0.7 and not hintonly:
                     row["calculation"] = rnd.choice(["now()", "1 + 1"])
         off = False
         if use_disabled and is_q and rnd.random() < 0.5:
